@@ -163,6 +163,8 @@ template<class Src, class Dest, class Tag, How how, int SND = 0>
                 bool ld_inexact = ref::round_to_format<long double>(xr + half, ov) != xr + half || ref::round_to_format<long double>(xr - half, ov) != xr - half;
                 if (src_inexact) labels += "/half_sum_inexact_in_source";
                 if (ld_inexact) labels += "/half_sum_inexact_in_long_double";
+                // x / unit itself is not representable in the source format (underflow of a denormal scaled down)
+                if (ref::round_to_format<Src>(xr / unit, ov) != xr / unit) labels += "/scaling_underflows_in_source";
             }
             std::string path = SD::scaled ? "from_float.to_scaled/" : "from_float.to_int/";
             if (!o.ok()) {
